@@ -121,7 +121,7 @@ def generate(cgs, variants_of, workdir, render=None):
 
 
 def write_mods(gen_dir, modules):
-    """modules: [(module name, rs path, [start nonterminals])]"""
+    """modules: [(module name, rs path, [start nonterminal | (start, parser type prefix, extra parse args)])]"""
     os.makedirs(gen_dir, exist_ok=True)
     out = ["pub const MODULES: &[&str] = &[%s];" % ", ".join('"%s"' % m for m, _, _ in modules)]
     for m, rs, _ in modules:
@@ -130,7 +130,8 @@ def write_mods(gen_dir, modules):
     out.append("    match (m, start) {")
     for m, _, starts in modules:
         for st in starts:
-            out.append('        ("%s", "%s") => Some(crate::rt::finish(%s::%sParser::new().parse(s))),' % (m, st, m, st))
+            key, ty, args = (st, st, "") if isinstance(st, str) else st
+            out.append('        ("%s", "%s") => Some(crate::rt::finish(%s::%sParser::new().parse(%ss))),' % (m, key, m, ty, args))
     out.append("        _ => None,")
     out.append("    }")
     out.append("}")
